@@ -196,7 +196,7 @@ def merge_stars(seq):
 
 
 def render_path(pp, extmatch=True, loose=False, sep='/', variant=0):
-    """sep='\\/' writes every separator between segments as an escaped slash (same meaning)."""
+    """sep='\\/' writes every separator (between segments, the root and a trailing one) as an escaped slash (same meaning)."""
     segs = []
     for s in pp.segs:
         if s == GS:
@@ -208,7 +208,7 @@ def render_path(pp, extmatch=True, loose=False, sep='/', variant=0):
         else:
             segs.append(render(s, extmatch, variant) if extmatch else render_plain(s))
     joiner = sep * pp.dup
-    return ('/' if pp.absolute else '') + joiner.join(segs) + ('/' if pp.trail else '')
+    return (sep if pp.absolute else '') + joiner.join(segs) + (sep if pp.trail else '')
 
 
 # ---------------------------------------------------------------------------------------------- inspection
